@@ -21,3 +21,5 @@ package zkprm
 //@   nopanic[C05]
 //@   inline
 //@   requires hash != nil && hash.h != nil && pedok(public.Aux)
+//@   use absorb
+//@   ensures[C10] result1 == nil ==> absorbed(hstate(hash), habs(iface(public.Aux)))
